@@ -49,13 +49,16 @@ structure Correct (E : Disk) (st : St) : Prop where
   tabAbs : ∀ m c t, get st.mcache m = some c → c.table = some t → ∀ e, e ∈ t → e.isAbs = true
   refAbs : ∀ m c key k e, get st.mcache m = some c → findRef key c.refs = some (some (.entry k e)) →
     e.isAbs = true
+  /-- `changed` is `!=`, as in the code -/
+  mode : st.lt = false
 
 /-- a state with nothing in its caches is correct for every disk -/
-theorem correct_of_nil (E : Disk) (st : St) (h1 : st.mcache = []) (h2 : st.missing = []) (h3 : st.ctx = []) :
-    Correct E st :=
-  ⟨by simp [h1], by simp [h2], by simp [h3], by simp [h1], by simp [h1], by simp [h1], by simp [h1], by simp [h1]⟩
+theorem correct_of_nil (E : Disk) (st : St) (h1 : st.mcache = []) (h2 : st.missing = []) (h3 : st.ctx = [])
+    (h4 : st.lt = false) : Correct E st :=
+  ⟨by simp [h1], by simp [h2], by simp [h3], by simp [h1], by simp [h1], by simp [h1], by simp [h1], by simp [h1],
+   h4⟩
 
-theorem correct_empty (E : Disk) : Correct E St.empty := correct_of_nil E _ rfl rfl rfl
+theorem correct_empty (E : Disk) : Correct E St.empty := correct_of_nil E _ rfl rfl rfl rfl
 
 theorem pTable_none {E : Disk} {m : Mod} (h : get E m = none) (n : Nat) : pTable E n m = .ok none := by
   cases n <;> simp [pTable, h]
@@ -71,7 +74,7 @@ theorem correct_updCached {E : Disk} {st : St} {m : Mod} {g : Cached → Cached}
       (∀ key k e, findRef key (g c).refs = some (some (.entry k e)) →
         findRef key c.refs = some (some (.entry k e)) ∨ e.isAbs = true)) :
     Correct E (updCached st m g) := by
-  refine ⟨?_, hc.miss, ?_, ?_, ?_, ?_, ?_, ?_⟩
+  refine ⟨?_, hc.miss, ?_, ?_, ?_, ?_, ?_, ?_, hc.mode⟩
   · intro k c hk
     simp only [updCached, get_map_upd] at hk
     by_cases hkm : k = m
@@ -175,7 +178,7 @@ theorem load_correct {E D : Disk} {st : St} {m : Mod} {b : Bool} {st' : St} (hc 
     obtain ⟨hb, hst⟩ := h
     subst hb; subst hst
     rw [hd] at hE
-    refine ⟨⟨?_, ?_, ?_, ?_, ?_, ?_, ?_, ?_⟩, by simp [Keeps], by simp, fun _ => hE⟩
+    refine ⟨⟨?_, ?_, ?_, ?_, ?_, ?_, ?_, ?_, by simpa using hc.mode⟩, by simp [Keeps], by simp, fun _ => hE⟩
     · simpa using hc.valid
     · intro k hk
       rcases (mem_addMissing st m k).1 hk with rfl | hk'
@@ -198,7 +201,7 @@ theorem load_correct {E D : Disk} {st : St} {m : Mod} {b : Bool} {st' : St} (hc 
       by_cases hmk : m = k
       · simp [hmk]
       · simpa [hmk] using hk
-    refine ⟨⟨?_, hc.miss, ?_, ?_, ?_, ?_, ?_, ?_⟩, hkeep, fun _ => ⟨⟨f.mtime, none, []⟩, by simp [get_cons]⟩, by simp⟩
+    refine ⟨⟨?_, hc.miss, ?_, ?_, ?_, ?_, ?_, ?_, hc.mode⟩, hkeep, fun _ => ⟨⟨f.mtime, none, []⟩, by simp [get_cons]⟩, by simp⟩
     · intro k c hk
       simp only [get_cons] at hk
       by_cases hmk : m = k
@@ -246,7 +249,7 @@ theorem getModule_foot {D : Disk} {st : St} {m : Mod} (hctx : ∀ k, k ∈ st.ct
     | none => exact load_foot D st m
     | some c =>
       dsimp only
-      by_cases hch : stat D m ≠ some c.mtime
+      by_cases hch : changedB st.lt (stat D m) c.mtime = true
       · rw [if_pos hch]; exact load_foot D _ m
       · rw [if_neg hch]; exact Or.inl (by simp [hg])
 
@@ -273,11 +276,11 @@ theorem getModule_correct {E D : Disk} {st : St} {m : Mod} {b : Bool} {st' : St}
       obtain ⟨f, hf, hmt⟩ := hc.valid m c hg
       have hst : stat D m = some c.mtime := by
         unfold stat; rw [← hE, hf]; simp [hmt]
-      rw [if_neg (by simp [hst])] at h
+      rw [if_neg (by simp [hst, changedB, hc.mode])] at h
       simp only [Prod.mk.injEq] at h
       obtain ⟨hb, hst'⟩ := h
       subst hb; subst hst'
-      refine ⟨⟨hc.valid, hc.miss, ?_, hc.table, hc.refs, hc.modIn, hc.tabAbs, hc.refAbs⟩, fun _ h => h,
+      refine ⟨⟨hc.valid, hc.miss, ?_, hc.table, hc.refs, hc.modIn, hc.tabAbs, hc.refAbs, hc.mode⟩, fun _ h => h,
         fun _ => ⟨c, hg⟩, by simp⟩
       intro k hk
       rcases List.mem_cons.1 hk with rfl | hk'
